@@ -1,7 +1,43 @@
-import Driver.Proto
+import Driver.CpuUtil
+import GbVerif.Model.Core
+import GbVerif.Spec.Interrupt
 namespace Driver
+open GbVerif GbVerif.Core
 
-/-- C07 correspondence (stub) -/
-def checkC07 (l : Line) : Verdict := .bad s!"stream {l.stream} not implemented"
+def imeOf (k : Nat) : Ime := match k with | 0 => .Enabled | 1 => .Disabled | _ => .EnableNext
+def imeCode : Ime → Nat | .Enabled => 0 | .Disabled => 1 | .EnableNext => 2
+def runOf (k : Nat) : RunState := match k with | 0 => .Run | 1 => .Stop | _ => .Halt
+def runCode : RunState → Nat | .Run => 0 | .Stop => 1 | .Halt => 2
+
+/-- the cartridge every c07/c08 case runs on: MBC1+RAM+BATTERY, 4 ROM banks, 32 KiB RAM -/
+def stdBus : Bus.State := Bus.create .mbc1 4 32768 romByte
+
+def cmpCore (l : Line) (what : String) (c : State) (sp : Nat) (mk : String → Verdict) : Option Verdict :=
+  let chk (k : String) (v : Nat) : Option Verdict :=
+    if l.outN k != v then some (mk s!"{what}: {k} impl={l.outN k} {what}={v}") else none
+  (chk "if" c.bus.io.ifl).orElse fun _ => (chk "ie" (busRd c.bus 0xffff)).orElse fun _ =>
+  (chk "ime" (imeCode c.ime)).orElse fun _ => (chk "run" (runCode c.run)).orElse fun _ =>
+  (chk "sp" c.regs.sp).orElse fun _ => (chk "ip" c.regs.ip).orElse fun _ => (chk "cy" c.regs.cycles).orElse fun _ =>
+  (chk "p1" (busRd c.bus ((sp + 65535) % 65536))).orElse fun _ => (chk "p2" (busRd c.bus ((sp + 65534) % 65536))).orElse fun _ =>
+  (chk "rb" (Cart.getRomBank c.bus.cart)).orElse fun _ =>
+  (if toString (smallDigest c.bus) != l.outS "small" then some (mk s!"{what}: OAM/IO/HRAM/IE image differs") else none)
+
+def checkC07 (l : Line) : Verdict :=
+  let b := stdBus
+  let b := { b with io := { b.io with ifl := l.inN "if", ie := l.inN "ie", ieUpper := l.inN "ieu" } }
+  let sp := l.inN "sp"
+  let c0 : State := { regs := { sp := sp, ip := l.inN "ip" }, bus := b, ime := imeOf (l.inN "ime"), run := runOf (l.inN "run") }
+  match InterruptSpec.dispatch c0 with
+  | .error _ => .bad "spec: bus model refuses"
+  | .ok cs =>
+    match cmpCore l "spec" cs sp .specDiff with
+    | some v => v
+    | none =>
+      match handleInterrupt c0 with
+      | .error _ => .modelDiff "model panics"
+      | .ok cm =>
+        match cmpCore l "model" cm sp .modelDiff with
+        | some v => v
+        | none => .ok (l.outN "cy" != 0 || l.outN "run" != l.inN "run")
 
 end Driver
